@@ -178,6 +178,8 @@ def sim_to_round(beh, rng, rid):
     first = core.tlaval.state_var(beh[0]['body'], 'cfg')
     snap0 = core.tlaval.state_var(beh[0]['body'], 'snap')
     r = decorate_round(rid, first['occ'], waves, rng, path=first['path'])
+    if first.get('src', 'request') != 'request':
+        r['cfg']['src'] = first['src']
     set_snap0(r, snap0)
     return r
 
@@ -242,6 +244,10 @@ def random_round(rng, rid):
         r['cfg']['recreate'] = True
     if rng.random() < 0.08:
         set_snap0(r, rng.choice(['pred', 'gap', 'cur', 'cur']))
+    # where the setting comes from: mostly the per-stream option; the server-wide setting; option against the setting
+    x = rng.random()
+    if x < 0.2:
+        r['cfg']['src'] = 'server' if x < 0.1 else 'override'
     return r
 
 
@@ -322,7 +328,7 @@ def life_case(rid, path, recreate, restart_at):
     return {'id': rid, 'cfg': cfg, 'steps': waves}
 
 
-def comeback_case(rid, path, snap0, how, occ=True):
+def comeback_case(rid, path, snap0, how, occ=True, src='request'):
     """how the server comes back, for a stream with concurrency control: where the newest Raft snapshot was taken
     (snap0: none / pred / gap / cur, or 'late' = between two waves) x how the metadata is rebuilt (restart = from the
     snapshot + log tail or by replaying the whole Raft log; install = Server.Restore on the running server), then
@@ -340,6 +346,8 @@ def comeback_case(rid, path, snap0, how, occ=True):
     ctl.append({'a': 'Restart' if how == 'restart' else 'Install'})
     w2['#'] = ctl
     r = {'id': rid, 'cfg': {'occ': occ, 'batch': 8, 'batchMs': 0, 'path': path, 'pubs': ['p1', 'p2']}, 'steps': [w1, w2, w3]}
+    if src != 'request':
+        r['cfg']['src'] = src
     if snap0 != 'late':
         set_snap0(r, snap0)
     return r
@@ -427,6 +435,8 @@ def sv_features(rnd):
         f += ',via=' + '+'.join(vias)
     if any(s.get('hold') for s in sends):
         f += ',hold'
+    if c.get('src', 'request') != 'request':
+        f += ',src=' + c['src']
     if ctl & {'Restart', 'Install', 'Snapshot'} or c.get('snap0'):
         f += ',comeback=' + '+'.join(sorted(ctl & {'Restart', 'Install', 'Snapshot'})) + '/' + c.get('snap0', 'none')
     return f
@@ -461,7 +471,7 @@ def sv_stats(events):
           'races_same_exp': 0, 'aborted': 0, 'other_answers': 0, 'pauses': 0, 'rounds_with_pause': 0,
           'none_on_occ': 0, 'none_refused': 0, 'sync_rounds': 0, 'noanswer': 0, 'fences': 0, 'restarts': 0, 'recreated_streams': 0,
           'conditional_all': 0, 'via': {}, 'holds_counted_after_answer': 0, 'holds_expired': 0, 'snapshots': 0,
-          'installs': 0, 'comebacks': {}, 'silent_conditional_stored': 0, 'silent_conditional_unstored': 0}
+          'installs': 0, 'comebacks': {}, 'src': {}, 'silent_conditional_stored': 0, 'silent_conditional_unstored': 0}
     for e in events:
         if e['a'] == 'Aborted':
             st['aborted'] += 1
@@ -471,6 +481,8 @@ def sv_stats(events):
         st['pauses'] += e.get('pauses', 0)
         st['restarts'] += e.get('restarts', 0)
         st['snapshots'] += e.get('snaps', 0)
+        k = '%s/%s' % (e['cfg'].get('src', 'request'), 'on' if e['cfg']['occ'] else 'off')
+        st['src'][k] = st['src'].get(k, 0) + 1
         st['installs'] += e.get('installs', 0)
         if e.get('restarts', 0) or e.get('installs', 0):
             k = '%s%s from snapshot=%s' % ('restart' if e.get('restarts', 0) else '', '+install' if e.get('installs', 0) else '',
@@ -574,6 +586,11 @@ def run_server(rep, tier, seed, rng):
         for path in (('async', 'sync') if thorough else (('async', 'sync')[i % 2],)):
             rounds.append(comeback_case(len(rounds) + 1, path, s0, how))
     rounds.append(comeback_case(len(rounds) + 1, 'async', 'cur', 'restart', occ=False))
+    # where the setting comes from (server-wide setting / per-stream option against it) x how the server comes back
+    for i, (src, occ, s0, how) in enumerate([('server', True, 'none', 'restart'), ('server', True, 'cur', 'install'),
+                                             ('override', True, 'cur', 'restart'), ('override', False, 'none', 'restart'),
+                                             ('override', False, 'cur', 'install'), ('server', True, 'late', 'restart')]):
+        rounds.append(comeback_case(len(rounds) + 1, ('async', 'sync')[i % 2], s0, how, occ=occ, src=src))
     # an idle PublishAsync session whose publish is answered before it is counted
     for kind in ('stale', 'future', 'equal', 'waive', 'neg'):
         for pol in (('leader', 'all') if thorough or kind in ('stale', 'equal') else ('leader',)):
